@@ -913,6 +913,13 @@ def run(sf, spec):
     explicit=None|{...}, budget=int, probes=[call, ...]) -> record."""
     global _S
     warnings.simplefilter("ignore")
+    # the cyclic garbage collector is one more scheduler: when it runs depends on allocation counts
+    # inherited from the parent process, and what it finalises (abandoned generators of the library,
+    # closed with GeneratorExit) executes library code in whichever thread happens to run.  It is
+    # switched off for the run and called at fixed points instead (after every call of a thread).
+    import gc
+    gc.collect()
+    gc.disable()
     if spec["policy"].get("gran") == "native-line":
         native_line_mode()
     from .calls import outcome, parse_arg
@@ -943,6 +950,7 @@ def run(sf, spec):
             for j, call in enumerate(spec["threads"][tid]):
                 S.in_call[tid] = True
                 results[tid][j] = do_call(sf, tuple(call))[:2]
+                gc.collect()
                 S.in_call[tid] = False
         except BaseException as e:
             S.harness_error = "thread %d: %r" % (tid, e)
